@@ -112,7 +112,7 @@ func PackValues(format string, values []rt.Value, budget uint64) (string, uint64
 				p.align(p.optSize) &&
 				p.nextStringValue() &&
 				p.packUint() &&
-				p.writeStr(0)
+				p.writeStr(0, false)
 			if p.err == errOutOfBounds {
 				p.err = errStringDoesNotFit
 			}
